@@ -680,6 +680,7 @@ type c20Question struct {
 	IsSrc   bool     // text questions: the answer block is evy source
 	RunOut  string   // text questions with IsSrc: expected output of running the trimmed answer
 	Comment string
+	Extra    map[string]string // files written beside the question (txtar archives)
 	NearMiss int // choices whose output differs from the question's only by newlines, blanks or case
 }
 
@@ -706,9 +707,11 @@ func c20ChoiceQuestion(rng *rand.Rand, atype string, answer string, n int, equal
 	switch style {
 	case 0, 2:
 		b.WriteString("What does this program print?\n\n```evy\n" + c20PrintProg(rng, gen) + "\n```\n\nChoose:\n\n")
-	case 1:
+	case 1, 3:
 		b.WriteString("Which program prints this?\n\n```\n" + gen + "\n```\n\nChoose:\n\n")
 	}
+	var archive strings.Builder // style 3: the choices are the files of a txtar archive
+	seenData := map[string]bool{}
 	for i := 0; i < n; i++ {
 		// the choice as source text (an evy program for style 1, literal output text otherwise)
 		// and the output it is designed to have
@@ -730,6 +733,20 @@ func c20ChoiceQuestion(rng *rand.Rand, atype string, answer string, n int, equal
 				src, out = "print "+strings.ReplaceAll(w, " ", "")+"_undefined", "**ERROR**"
 			}
 		}
+		if style == 3 {
+			// a file of the archive: an evy program (run for its output) or, for a file
+			// that is not .evy, the output itself; file contents must be pairwise different
+			name := string(rune('a'+i)) + ".evy"
+			data := strings.Replace(src+"\n", "\n", " // "+strings.Repeat("choice ", 1+i%2)+name+"\n", 1)
+			if strings.HasPrefix(src, "printf") || strings.Contains(src, "_undefined") {
+				data = src + "\n// " + name + "\n"
+			}
+			if lit := out; rng.Intn(4) == 0 && out != "**ERROR**" && strings.HasSuffix(out, "\n") && !seenData[lit] && !strings.Contains(lit, "\n\n") {
+				name, data = string(rune('a'+i))+".txt", lit
+			}
+			seenData[data] = true
+			archive.WriteString("-- " + name + " --\n" + data)
+		}
 		switch style {
 		case 0:
 			b.WriteString("- `" + src + "`\n")
@@ -743,13 +760,18 @@ func c20ChoiceQuestion(rng *rand.Rand, atype string, answer string, n int, equal
 			q.NearMiss++
 		}
 	}
+	if style == 3 {
+		title := []string{"evy:source", "evy:text"}[rng.Intn(2)]
+		b.WriteString("- [answer](choices.txtar \"" + title + "\")\n")
+		q.Extra = map[string]string{"choices.txtar": archive.String()}
+	}
 	q.Body = b.String()
 	return q
 }
 
 // source of a choice whose output is w + "\n"
 func c20ChoiceSource(rng *rand.Rand, style int, w string) string {
-	if style == 1 {
+	if style == 1 || style == 3 {
 		return c20PrintProg(rng, w)
 	}
 	return w
@@ -768,7 +790,7 @@ func c20SwapCase(w string) string {
 func c20NearMiss(rng *rand.Rand, style int, gen string) (src, out string) {
 	cased := c20SwapCase(gen)
 	switch style {
-	case 1: // evy programs
+	case 1, 3: // evy programs
 		switch rng.Intn(7) {
 		case 0: // printf without newline
 			return "printf \"" + gen + "\"", gen
@@ -879,11 +901,14 @@ func (e *c20Env) check(q c20Question, mode c20Mode, equal []bool) {
 	content := c20Frontmatter(atypeFM, q.Answer, verification) + q.Body
 	input := map[string]any{"kind": "verify", "markdown": content, "mode": mode.Name, "seal": mode.Seal, "key": mode.Key, "ignore": mode.Ignore,
 		"public": e.keys[ki].KP.Public, "private": e.keys[ki].KP.Private, "wrong_private": e.keys[(ki+1)%len(e.keys)].KP.Private,
-		"marks": q.Marks, "equal": equal, "answer": q.Answer}
-	implClass, outs, gen, herr := c20RunVerify(e.dir, fmt.Sprintf("q%d", e.seq), content, q.Answer, mode, e.keys[ki].KP, e.keys[(ki+1)%len(e.keys)].KP.Private)
+		"marks": q.Marks, "equal": equal, "answer": q.Answer, "files": q.Extra}
+	implClass, outs, gen, herr := c20RunVerify(e.dir, fmt.Sprintf("q%d", e.seq), content, q.Answer, mode, e.keys[ki].KP, e.keys[(ki+1)%len(e.keys)].KP.Private, q.Extra)
 	canon := fmt.Sprintf("v/%s/%q/%v/%v/%d/%s", q.AType, q.Answer, equal, q.Outs, q.Style, mode.Name)
 	r.Count(canon, len(q.Outs) >= 2 || q.AType == "text")
 	r.Dist("verify:" + q.AType + ":" + mode.Name + ":" + implClass)
+	if q.Style == 3 {
+		r.Dist("verify:txtar-choices:" + implClass)
+	}
 	if q.NearMiss > 0 {
 		r.Distribution["verify:choices-that-are-near-misses"] += q.NearMiss
 		r.Dist("verify:questions-with-near-miss")
@@ -894,6 +919,9 @@ func (e *c20Env) check(q c20Question, mode c20Mode, equal []bool) {
 	}
 	// the outputs really produced (by running evy) are the designed ones
 	if outs != nil {
+		if q.Style == 3 && len(outs) == 1 && outs[0] == "*** txtar Content ERROR ***" {
+			outs = q.Outs // one txtar renderer: the per-file outputs are not observable from outside
+		}
 		if gen != q.Gen || strings.Join(outs, "\x1e") != strings.Join(q.Outs, "\x1e") {
 			r.Violate(Violation{Kind: "correspondence", Key: "rendered-output-differs-from-design", Detail: "RenderOutput of question/choices is not what the generator designed", Input: input,
 				Impl: map[string]any{"gen": gen, "outs": outs}, Model: map[string]any{"gen": q.Gen, "outs": q.Outs}})
@@ -957,12 +985,19 @@ func (e *c20Env) check(q c20Question, mode c20Mode, equal []bool) {
 // c20RunVerify writes the question, optionally seals it the way `evy learn seal`
 // does (Seal + WriteFormatted), reloads it with the options of the mode and
 // returns the class of Verify's error plus the rendered outputs.
-func c20RunVerify(dir, name, content, answer string, mode c20Mode, kp learn.KeyPair, wrongPriv string) (class string, outs []string, gen string, harnessErr string) {
+func c20RunVerify(dir, name, content, answer string, mode c20Mode, kp learn.KeyPair, wrongPriv string, extra map[string]string) (class string, outs []string, gen string, harnessErr string) {
 	file, err := c20WriteQuestion(dir, name, content)
 	if err != nil {
 		return "", nil, "", "io"
 	}
 	defer os.Remove(file)
+	for fn, data := range extra {
+		p := filepath.Join(filepath.Dir(file), fn)
+		if err := os.WriteFile(p, []byte(data), 0o644); err != nil {
+			return "", nil, "", "io"
+		}
+		defer os.Remove(p)
+	}
 	defer func() {
 		if v := recover(); v != nil {
 			class, outs, gen, harnessErr = "panic", nil, "", ""
@@ -1005,7 +1040,9 @@ func c20RunVerify(dir, name, content, answer string, mode c20Mode, kp learn.KeyP
 		return "", nil, "", "not-sealed-after-seal"
 	}
 	verr := m.Verify()
-	gen = m.Question.RenderOutput()
+	if m.Question != nil {
+		gen = m.Question.RenderOutput()
+	}
 	for _, c := range m.AnswerChoices {
 		outs = append(outs, c.RenderOutput())
 	}
@@ -1044,7 +1081,7 @@ func c20Verification(e *c20Env) {
 				if rng.Intn(3) == 0 {
 					rng.Shuffle(len(marks), func(i, j int) { marks[i], marks[j] = marks[j], marks[i] })
 				}
-				q := c20ChoiceQuestion(rng, "multi", c20Letters(marks, rng), n, equal, rng.Intn(3))
+				q := c20ChoiceQuestion(rng, "multi", c20Letters(marks, rng), n, equal, rng.Intn(4))
 				q.Marks, q.Valid = marks, true
 				e.check(q, c20Modes[0], equal)
 				if rng.Intn(4) == 0 || cfg.Tier == "thorough" {
@@ -1056,7 +1093,7 @@ func c20Verification(e *c20Env) {
 				singles = append(singles, i)
 			}
 			for _, mk := range singles {
-				q := c20ChoiceQuestion(rng, "single", string(rune('a'+mk)), n, equal, rng.Intn(3))
+				q := c20ChoiceQuestion(rng, "single", string(rune('a'+mk)), n, equal, rng.Intn(4))
 				q.Marks, q.Valid = []int{mk}, true
 				e.check(q, c20Modes[0], equal)
 				if rng.Intn(4) == 0 || cfg.Tier == "thorough" {
@@ -1065,12 +1102,45 @@ func c20Verification(e *c20Env) {
 			}
 		}
 	}
+	// choices that live in a txtar archive beside the question (one renderer, one output per
+	// file): 2..6 files, marks anywhere incl. the last file and one beyond the archive
+	exhaustUpTo := cfg.N(3, 5)
+	for n := 2; n <= 6; n++ {
+		total := (1 << n) * ((1 << (n + 1)) - 1)
+		step := 1
+		if n > exhaustUpTo {
+			step = total/cfg.N(100, 1500) + 1
+		}
+		for k := rng.Intn(step); k < total; k += step {
+			pat, sub := k%(1<<n), k/(1<<n)+1
+			equal := make([]bool, n)
+			for i := range equal {
+				equal[i] = pat&(1<<i) != 0
+			}
+			var marks []int
+			for i := 0; i <= n; i++ {
+				if sub&(1<<i) != 0 {
+					marks = append(marks, i)
+				}
+			}
+			q := c20ChoiceQuestion(rng, "multi", c20Letters(marks, rng), n, equal, 3)
+			q.Marks, q.Valid = marks, true
+			e.check(q, c20Modes[0], equal)
+			if len(marks) == 1 {
+				q := c20ChoiceQuestion(rng, "single", string(rune('a'+marks[0])), n, equal, 3)
+				q.Marks, q.Valid = marks, true
+				e.check(q, c20Modes[rng.Intn(3)], equal)
+			}
+		}
+	}
+	c20ParseErrorQuestions(e, exhaustUpTo)
+
 	// malformed answers (the answer text does not denote marks)
 	bad := []string{"", "A", "ab", "a,,b", "a,", ",", "1", "a b", "\u00e9", "a;b", "a, B", "aa", " ", "{", "a, b", "a,\u200bb", "\u3000c ", "a,\u00a0b\u2003", "c\n"}
 	for i, ans := range bad {
 		for _, at := range []string{"single", "multi"} {
 			equal := []bool{i%2 == 0, false, true}
-			q := c20ChoiceQuestion(rng, at, ans, 3, equal, rng.Intn(3))
+			q := c20ChoiceQuestion(rng, at, ans, 3, equal, rng.Intn(4))
 			// a few of these are valid after all (splitTrim trims Unicode white space): let the model say
 			q.Valid = false
 			e.check(q, c20Modes[0], equal)
@@ -1081,6 +1151,81 @@ func c20Verification(e *c20Env) {
 	nText := cfg.N(300, 4000)
 	for i := 0; i < nText; i++ {
 		e.check(c20TextQuestion(rng), c20Modes[[]int{0, 0, 0, 2, 4, 5, 6, 7}[rng.Intn(8)]], nil)
+	}
+}
+
+// verification modes parse-error / no-parse-error: the choices are the files of a txtar
+// archive, there is no question output; accepted iff the marked files are precisely the
+// files that have (parse-error) / do not have (no-parse-error) a parse error
+func c20ParseErrorQuestions(e *c20Env, exhaustUpTo int) {
+	r, rng := e.r, e.cfg.Rng
+	good := []string{"print \"%s\"", "x := \"%s\"\nprint x", "print (len \"%s\")", "for i := range 2\n    print i \"%s\"\nend"}
+	bad := []string{"print \"%s", "x := \nprint \"%s\"", "print undefined_%s", "if true\n    print \"%s\"", "print \"%s\" +", "x := 1\nx := \"%s\""}
+	for n := 2; n <= 6; n++ {
+		total := 2 * (1 << n) * ((1 << (n + 1)) - 1)
+		step := 1
+		if n > exhaustUpTo {
+			step = total/e.cfg.N(100, 1500) + 1
+		}
+		for k := rng.Intn(step); k < total; k += step {
+			want := k%2 == 0
+			pat, sub := (k/2)%(1<<n), (k/2)/(1<<n)+1
+			flags := make([]bool, n)
+			flagsx := make([]SX, n)
+			var archive strings.Builder
+			for i := range flags {
+				flags[i] = pat&(1<<i) != 0
+				flagsx[i] = Bool(flags[i])
+				tmpl := good[rng.Intn(len(good))]
+				if flags[i] {
+					tmpl = bad[rng.Intn(len(bad))]
+				}
+				fmt.Fprintf(&archive, "-- %c.evy --\n%s\n", 'a'+i, fmt.Sprintf(tmpl, fmt.Sprintf("w%d", i)))
+			}
+			var marks []int
+			for i := 0; i <= n; i++ {
+				if sub&(1<<i) != 0 {
+					marks = append(marks, i)
+				}
+			}
+			atype, answer := "multi", c20Letters(marks, rng)
+			if len(marks) == 1 && rng.Intn(2) == 0 {
+				atype, answer = "single", string(rune('a'+marks[0]))
+			}
+			verification := "no-parse-error"
+			if want {
+				verification = "parse-error"
+			}
+			content := c20Frontmatter(map[string]string{"single": "single-choice", "multi": "multiple-choice"}[atype], answer, verification) +
+				"## Parse errors\n\nWhich of these programs are as the question says?\n\nChoose:\n\n- [answer](choices.txtar \"evy:source\")\n"
+			files := map[string]string{"choices.txtar": archive.String()}
+			e.seq++
+			class, _, _, herr := c20RunVerify(e.dir, fmt.Sprintf("p%d", e.seq), content, answer, c20Modes[0], e.keys[0].KP, "", files)
+			input := map[string]any{"kind": "verify-parse", "markdown": content, "files": files, "marks": marks, "parse_error": flags, "verification": verification, "answer": answer}
+			r.Count(fmt.Sprintf("pe/%s/%v/%v/%v", atype, marks, flags, want), true)
+			r.Dist("verify:" + verification + ":" + class)
+			if herr != "" {
+				r.Violate(Violation{Kind: "correspondence", Key: "harness-" + herr, Detail: "the generated parse-error question did not load as intended", Input: input})
+				continue
+			}
+			mclass, merr := e.model.Ask(Lst(Sym("verifyflags"), Bool(want), Sym(atype), Str(answer), LstOf(flagsx)).String())
+			r.Validated++
+			if merr != nil || mclass != class {
+				r.Violate(Violation{Kind: "correspondence", Key: "verify-model-differs:" + class + "-vs-" + mclass, Detail: "parse-error verification: QuestionModel.Verify and the model disagree", Input: input, Impl: class, Model: mclass})
+			}
+			wanted := make([]bool, n)
+			for i := range wanted {
+				wanted[i] = flags[i] == want
+			}
+			if exact := sameSet(marks, wanted); (class == "ok") != exact {
+				key := "verify-parse-error-rejects-exact-marks"
+				if class == "ok" {
+					key = "verify-parse-error-accepts-wrong-marks"
+				}
+				r.Violate(Violation{Kind: "property", Key: key,
+					Detail: fmt.Sprintf("verification %s: marks %v, files with parse error %v, Verify: %s", verification, marks, flags, class), Input: input, Impl: class, Model: mclass})
+			}
+		}
 	}
 }
 
@@ -1354,7 +1499,13 @@ func c20Replay(cfg Config, r *Result, model *c20Model, dir string) {
 		mode.VNone = strings.Contains(content, "\nverification: none\n")
 		answer := str("answer")
 		kp := learn.KeyPair{Public: str("public"), Private: str("private")}
-		class, outs, gen, herr := c20RunVerify(dir, "replay", content, answer, mode, kp, str("wrong_private"))
+		extra := map[string]string{}
+		if fm, ok := rec.Input["files"].(map[string]any); ok {
+			for k, v := range fm {
+				extra[k], _ = v.(string)
+			}
+		}
+		class, outs, gen, herr := c20RunVerify(dir, "replay", content, answer, mode, kp, str("wrong_private"), extra)
 		r.Count("replay", true)
 		r.Note("replay verify: class=%s outs=%q gen=%q harness=%s", class, outs, gen, herr)
 		var marks []int
@@ -1395,7 +1546,7 @@ func runC20(cfg Config, r *Result) {
 	defer os.RemoveAll(dir)
 	r.Rule = "A: Decrypt(Encrypt(t)) = t for random texts (0..20000 bytes, any Unicode, stray bytes) under 2 fresh key pairs (1024, 2048 bit); for 3 (quick) / 20 (thorough) sealed values single-byte corruptions of the envelope bytes and of the base64 text (thorough: every position, all 255 other values per envelope byte for all 20 values and per base64 character for the first 6, 8 bit flips per character for the rest; quick: a sample of about 55 envelope positions - header, both ends of the RSA part, the whole GCM tag, 24 random - and about 50 base64 positions, all 255 values at the sampled envelope positions of the first value, otherwise the 8 single-bit flips), every truncation of both, and the other private key: result must be rejection or the original text, and the rejection stage must be the one the model predicts under the ideal functionality; model unframe/frame on the real envelopes and on random garbage. " +
 		"B: random Seal/Unseal/Unseal-with-wrong-key sequences on the real front matter vs the model. " +
-		"C: every non-empty subset of letters a..(one beyond the last choice) x every equal/different assignment for 2..5 choices (multiple choice), every single letter of those and z (single choice), through markdown files whose outputs are produced by running evy (a choice of the different class is with probability 1/2 a near miss: output differing from the question's only by trailing newlines - printf, an extra bare print, a string ending in \\n -, by a leading/trailing blank or by case; choice outputs are compared exactly), in plain and sealed / wrong key / no key / ignored / verification-none modes; text answers with white-space variants. " +
+		"C: every non-empty subset of letters a..(one beyond the last choice) x every equal/different assignment for 2..5 choices (multiple choice), every single letter of those and z (single choice), in four styles (question evy / choices inline code; question text / choices evy blocks; question evy / choices text blocks; question text / choices = the 2..6 files of a generated txtar archive linked from one list item, exhaustive up to 3 (quick) / 5 (thorough) files, sampled above; plus parse-error / no-parse-error verification over such archives), through markdown files whose outputs are produced by running evy (a choice of the different class is with probability 1/2 a near miss: output differing from the question's only by trailing newlines - printf, an extra bare print, a string ending in \\n -, by a leading/trailing blank or by case; choice outputs are compared exactly), in plain and sealed / wrong key / no key / ignored / verification-none modes; text answers with white-space variants. " +
 		"non-trivial = non-empty text (A), >= 2 operations (B), every question (C); distinct = distinct canonical case"
 	if cfg.Replay != "" {
 		c20Replay(cfg, r, model, dir)
